@@ -434,6 +434,11 @@ func unfinished(c *Case, e *env) string {
 			collected[i] += n
 		}
 	}
+	for x, n := range collected { // a passthrough node has no function of the harness: it started when it was collected
+		if c.spec(x).Kind == "pass" {
+			started[x] = n
+		}
+	}
 	for x, n := range started {
 		if collected[x] != n {
 			return fmt.Sprintf("%s started %d time(s), collected %d time(s)", nodeName(x), n, collected[x])
@@ -667,9 +672,31 @@ func coqCase(c *Case, e *env, sum *hookSummary) (string, bool) {
 	for i, n := range sum.Copies {
 		cps[i] = lib.CoqZ(int64(n))
 	}
+	// every execution of a node: its streaming callback sites and the handlers that apply to it
 	var sides []string
+	handlersAt := func(x int) int {
+		n := c.Handlers
+		for _, y := range c.HandlerNodes {
+			if y == x {
+				n++
+			}
+		}
+		return n
+	}
 	for _, x := range e.execs {
-		sides = append(sides, lib.CoqNat(streamSides(c.spec(x))))
+		sides = append(sides, lib.CoqPair(lib.CoqNat(streamSides(c.spec(x))), lib.CoqNat(handlersAt(x))))
+	}
+	passKeys := []string{}
+	for key := range e.collected {
+		passKeys = append(passKeys, key)
+	}
+	sort.Strings(passKeys)
+	for _, key := range passKeys {
+		if x, ok := nodeIndex(key); ok && c.spec(x).Kind == "pass" {
+			for k := 0; k < e.collected[key]; k++ {
+				sides = append(sides, lib.CoqPair(lib.CoqNat(passSides), lib.CoqNat(handlersAt(x))))
+			}
+		}
 	}
 	cbc := make([]string, len(sum.CallbackCopies))
 	for i, n := range sum.CallbackCopies {
@@ -687,6 +714,9 @@ func coqCase(c *Case, e *env, sum *hookSummary) (string, bool) {
 		lib.CoqNat(c.Handlers), lib.CoqList(sides), lib.CoqList(cbc),
 		lib.CoqNat(sum.CPDrains), lib.CoqNat(sum.InputCloses)), true
 }
+
+// passSides: the streaming callback sites of one execution of a passthrough node.
+const passSides = 0
 
 // streamSides: how many sides of a lambda's own paradigm are streams (its callbacks are
 // injected around the user function in that paradigm).
@@ -743,8 +773,25 @@ func tagsOf(c *Case, e *env, o *Obs) []string {
 			keys = true
 		}
 	}
+	for key := range e.collected {
+		if x, ok := nodeIndex(key); ok && c.spec(x).Kind == "pass" {
+			kinds["pass"] = true
+		}
+	}
 	for k := range kinds {
 		t = append(t, "ran:"+k)
+	}
+	if c.SameHandler {
+		t = append(t, "opt:same-handler")
+	}
+	if len(c.HandlerNodes) > 0 {
+		t = append(t, "opt:designated-handler")
+	}
+	for i := range c.Nodes {
+		if c.Nodes[i].Static {
+			t = append(t, "opt:static-value")
+			break
+		}
 	}
 	if keys {
 		t = append(t, "has:keys")
